@@ -101,6 +101,14 @@ def translate_source():
     except Exception as e:
         open(out6, 'w').write('/-! source-level translation of the helper setters failed on this tree -/\n')
         status['Helpers'] = 'untranslatable: translator failed (' + type(e).__name__ + ')'
+    # and the table-driven renderers
+    out7 = os.path.join(LEAN, 'UbxModel', 'Gen', 'SrcRender.lean')
+    try:
+        r = sh([PY, os.path.join(ROOT, 'tools', 'pysrc2lean_render.py'), REPO, out7], timeout=120)
+        status['Render'] = r.stdout.strip().splitlines()[-1]
+    except Exception as e:
+        open(out7, 'w').write('/-! source-level translation of the renderers failed on this tree -/\n')
+        status['Render'] = 'untranslatable: translator failed (' + type(e).__name__ + ')'
     return status
 
 
@@ -115,6 +123,8 @@ SRC_THEOREMS = {
     'Tty': ['tty_receive', 'tty_receive_closed', 'tty_transmit', 'tty_flush_input', 'tty_recover', 'scan_loop', 'tty_scan'],
     'Helpers': ['item_assign_same', 'item_assign_other', 'assign_names', 'h_set_rate', 'h_set_rate_refused', 'h_cfg_save', 'h_cfg_reset', 'h_rst', 'h_sos',
                 'h_esfla_set', 'h_set_datetime', 'h_find_entry', 'h_enable_gnss', 'h_disable_gnss', 'h_gps_glonass', 'h_gps_galileo_beidou', 'h_lever_arm'],
+    'Render': ['r_lever', 'r_gnssid', 'r_fusion', 'r_gpsfix', 'r_flags_enable', 'r_alg_flags', 'r_init1', 'r_init2', 'r_sens1', 'r_sens2', 'r_nav_flags',
+               'r_mode', 'r_proto'],
     'Server': ['srv_check_poll', 'srv_check_ack_nak', 'srv_check_mga', 'srv_send', 'srv_wait', 'srv_set', 'srv_set_mga',
                'srv_set_mga_other_class', 'srv_fire_and_forget', 'srv_set_retries', 'srv_set_retry_delay', 'srv_poll'],
 }
@@ -128,6 +138,7 @@ TRANSFERS = {   # module -> (classes it needs, theorems)
     'TransferTypes': (['Types'], ['generated_tables_known', 'src_decoded_as_prescribed', 'src_encode_after_decode']),
     'TransferTty': (['Tty', 'UbxParser', 'NmeaParser'], ['src_scan_verdict', 'src_scan_time', 'src_tty_transmit', 'src_tty_recover']),
     'TransferHelpers': (['Helpers'], ['src_enable_gnss_spec', 'src_disable_gnss_spec', 'src_lever_arm_first']),
+    'TransferRender': (['Render'], ['src_renderers_total']),
     'TransferServer': (['Server', 'UbxParser'], ['src_set_returns_bounded', 'src_set_mga_returns_bounded', 'src_poll_returns_bounded', 'src_set_result',
                                                  'src_poll_result', 'src_set_kth', 'src_set_like_fresh', 'src_poll_like_fresh', 'src_poll_all_same']),
 }
